@@ -112,7 +112,9 @@ func cmdC07(r *RNG, n int, e *Emitter, args []string) {
 			{"BooleanOpPolyTreeD", func() any { return treePolys(clip.BooleanOpPolyTreeD(ct, s, c, fr, prec).PolyPathBase) }, func() any { return treePolys(clip.BooleanOpPolyTree64(ct, q(s), q(c), fr).PolyPathBase) }},
 			{"InflatePathsD", func() any {
 				return clip.InflatePathsD(s, delta, jt, et, clip.WithPrecision(prec), clip.WithArcTolerance(arct))
-			}, func() any { return u(clip.InflatePaths64(q(s), delta*scale, jt, et, clip.WithArcTolerance(arct*scale))) }},
+			}, func() any {
+				return u(clip.InflatePaths64(q(s), delta*scale, jt, et, clip.WithArcTolerance(arct*scale)))
+			}},
 			{"MinkowskiSumD", func() any { return clip.MinkowskiSumD(s[0], c[0], closed, prec) }, func() any { return u(clip.MinkowskiSum64(q(s)[0], q(c)[0], closed)) }},
 			{"MinkowskiDiffD", func() any { return clip.MinkowskiDiffD(s[0], c[0], closed, prec) }, func() any { return u(clip.MinkowskiDiff64(q(s)[0], q(c)[0], closed)) }},
 			{"RectClipPathsD", func() any { return clip.RectClipPathsD(rectD, s, prec) }, func() any { return u(clip.RectClipPaths64(rect64, q(s))) }},
